@@ -41,7 +41,8 @@ static void read_index(void)
 }
 
 /* component selections: 0 linux, 1 x86, 2 linux+x86 */
-static const char *COMPS[] = { "linux,stop", "x86,stop", "linux,x86,stop" };
+static const char *COMPS[] = { "linux,stop", "x86,stop", "linux,x86,stop", "x86,linux,stop" };
+#define NCOMPS 4
 
 static int load_snapshot(hwloc_topology_t *tp, const struct snap *s, int comp, const struct ucfg *c)
 {
@@ -67,7 +68,7 @@ static int comp_applies(const struct snap *s, int comp)
 {
   if (!strcmp(s->kind, "linux")) return comp == 0;
   if (!strcmp(s->kind, "x86")) return comp == 1;
-  return 1;   /* x86+linux: all three */
+  return 1;   /* x86+linux: each backend alone and both orders */
 }
 
 static struct ucfg CFG[64]; static int NCFG;
@@ -172,7 +173,9 @@ static int removable(const struct snap *s, const char *rel)
 }
 
 static int class_pair_limit;   /* pairs of classes are enumerated for snapshots with at most that many classes */
+static int FCOMP;  /* component selection of the fault stage: linux alone, and for x86+linux snapshots also both orders of the two backends */
 static int FCFG;   /* configuration of the fault stage: 0 default, 1 every type kept (I/O and Misc discovery paths join P) */
+static const char *ftag(void) { static char b[96]; if (!FCOMP) return FCFG ? "keepall" : "default"; snprintf(b, sizeof(b), "%s components=%s", FCFG ? "keepall" : "default", COMPS[FCOMP]); return b; }
 static void fault_cfg(struct ucfg *c) { if (FCFG) ucfg_keepall(c); else ucfg_default(c); }
 /* class of a removed path: digits runs replaced by N (cpu12 -> cpuN), used in violation keys so that a known
  * finding names the kind of file whose absence triggers it */
@@ -194,7 +197,7 @@ static void fault_load(const struct snap *s, const char **hide, int nh, const ch
   if (by_class) envfs_hide_classes(hide, nh); else envfs_hide(hide, nh);
   envfs_mode(2); envfs_hits = 0;
   MC.transitions++;
-  if (MC_TRY(120000)) { rc = load_snapshot(&t, s, 0, &c); mc_try_end(); }
+  if (MC_TRY(120000)) { rc = load_snapshot(&t, s, FCOMP, &c); mc_try_end(); }
   envfs_mode(0);
   if (mc_report_faults(where_load)) return;
   if (!envfs_hits) mc_count("removals_never_consulted", 1);
@@ -214,18 +217,18 @@ static void faults_of(const struct snap *s, uint64_t *idx, int pairs, int single
   /* pass 0: record */
   hwloc_topology_t t = NULL; struct ucfg c; fault_cfg(&c);
   envfs_reset_record(); envfs_mode(1);
-  int rc = load_snapshot(&t, s, 0, &c);
+  int rc = load_snapshot(&t, s, FCOMP, &c);
   envfs_mode(0);
   if (rc == 0) hwloc_topology_destroy(t);
   char **P; size_t np = envfs_recorded(&P);
   /* copy: the record buffer is reused */
   char **Q = malloc(np * sizeof(char *)); size_t nq = 0;
   for (size_t i = 0; i < np; i++) if (removable(s, P[i])) Q[nq++] = strdup(P[i]);
-  if (MC.part == 0) { mc_count("paths_consulted", np); mc_count("paths_removable", nq); mc_count("snapshots_fault_enumerated", 1); mc_outcome("path_sets", "%s %s consulted=%zu removable=%zu", s->name, FCFG ? "keepall" : "default", np, nq); }
+  if (MC.part == 0) { mc_count("paths_consulted", np); mc_count("paths_removable", nq); mc_count("snapshots_fault_enumerated", 1); mc_outcome("path_sets", "%s %s consulted=%zu removable=%zu", s->name, ftag(), np, nq); }
   mc_count_max("largest_removable_path_set", nq);
   for (size_t i = 0; singles && i < nq; i++, (*idx)++) {
     if (!mc_mine(*idx) || mc_deadline()) continue;
-    if (!mc_case("linux %s %s without %s", s->name, FCFG ? "keepall" : "default", Q[i])) continue;
+    if (!mc_case("linux %s %s without %s", s->name, ftag(), Q[i])) continue;
     const char *h[1] = { Q[i] };
     fault_load(s, h, 1, "faulted-load", 0);
   }
@@ -235,7 +238,7 @@ static void faults_of(const struct snap *s, uint64_t *idx, int pairs, int single
     for (size_t i = 0; i < nq; i++) if (!strncmp(Q[i], "sys/devices/system", 18)) sysidx[ns++] = i;
     if (ns <= 200) for (size_t a = 0; a < ns; a++) for (size_t b = a + 1; b < ns; b++, (*idx)++) {
       if (!mc_mine(*idx) || mc_deadline()) continue;
-      if (!mc_case("linux %s %s without %s and %s", s->name, FCFG ? "keepall" : "default", Q[sysidx[a]], Q[sysidx[b]])) continue;
+      if (!mc_case("linux %s %s without %s and %s", s->name, ftag(), Q[sysidx[a]], Q[sysidx[b]])) continue;
       const char *h[2] = { Q[sysidx[a]], Q[sysidx[b]] };
       fault_load(s, h, 2, "faulted-load-2", 0);
     }
@@ -257,11 +260,11 @@ static void faults_of(const struct snap *s, uint64_t *idx, int pairs, int single
       if (bad) { if (MC.part == 0) mc_count("classes_left_out_numbered_directory", 1); continue; }
       C[nc++] = strdup(cls);
     }
-    if (MC.part == 0) { mc_count("path_classes", nc); mc_outcome("class_sets", "%s %s classes=%zu", s->name, FCFG ? "keepall" : "default", nc); }
+    if (MC.part == 0) { mc_count("path_classes", nc); mc_outcome("class_sets", "%s %s classes=%zu", s->name, ftag(), nc); }
     mc_count_max("largest_class_set", nc);
     for (size_t i = 0; i < nc; i++, (*idx)++) {
       if (!mc_mine(*idx) || mc_deadline()) continue;
-      if (!mc_case("linux %s %s without class %s", s->name, FCFG ? "keepall" : "default", C[i])) continue;
+      if (!mc_case("linux %s %s without class %s", s->name, ftag(), C[i])) continue;
       const char *h[1] = { C[i] };
       fault_load(s, h, 1, "faulted-load", 1);
       mc_count("class_removals_bound1", 1);
@@ -272,13 +275,13 @@ static void faults_of(const struct snap *s, uint64_t *idx, int pairs, int single
         /* a class below another one adds nothing to it */
         size_t la = strlen(C[a]), lb = strlen(C[b]);
         if ((la < lb && !strncmp(C[a], C[b], la) && C[b][la] == '/') || (lb < la && !strncmp(C[a], C[b], lb) && C[a][lb] == '/')) continue;
-        if (!mc_case("linux %s %s without classes %s and %s", s->name, FCFG ? "keepall" : "default", C[a], C[b])) continue;
+        if (!mc_case("linux %s %s without classes %s and %s", s->name, ftag(), C[a], C[b])) continue;
         const char *h[2] = { C[a], C[b] };
         fault_load(s, h, 2, "faulted-load-2", 1);
         mc_count("class_removals_bound2", 1);
       }
       if (MC.part == 0) mc_count("snapshots_class_pairs_enumerated", 1);
-    } else if (MC.part == 0) { mc_count("snapshots_class_pairs_deferred", 1); mc_outcome("class_pairs_deferred", "%s %s classes=%zu", s->name, FCFG ? "keepall" : "default", nc); }
+    } else if (MC.part == 0) { mc_count("snapshots_class_pairs_deferred", 1); mc_outcome("class_pairs_deferred", "%s %s classes=%zu", s->name, ftag(), nc); }
     /* bound 3 (thorough): every triple of classes none of which lies below another, for small class sets */
     if (MC.thorough && nc <= 40) {
       for (size_t a = 0; a < nc; a++) for (size_t b = a + 1; b < nc; b++) for (size_t c = b + 1; c < nc; c++, (*idx)++) {
@@ -286,17 +289,17 @@ static void faults_of(const struct snap *s, uint64_t *idx, int pairs, int single
         const char *h[3] = { C[a], C[b], C[c] }; int nested = 0;
         for (int x = 0; x < 3 && !nested; x++) for (int y = 0; y < 3; y++) { size_t lx = strlen(h[x]); if (x != y && strlen(h[y]) > lx && !strncmp(h[x], h[y], lx) && h[y][lx] == '/') nested = 1; }
         if (nested) continue;
-        if (!mc_case("linux %s %s without classes %s and %s and %s", s->name, FCFG ? "keepall" : "default", C[a], C[b], C[c])) continue;
+        if (!mc_case("linux %s %s without classes %s and %s and %s", s->name, ftag(), C[a], C[b], C[c])) continue;
         fault_load(s, h, 3, "faulted-load-3", 1);
         mc_count("class_removals_bound3", 1);
       }
       if (MC.part == 0) mc_count("snapshots_class_triples_enumerated", 1);
     }
-    if (nc) mc_sample("linux %s %s without class %s (one of %zu classes)", s->name, FCFG ? "keepall" : "default", C[nc / 2], nc);
+    if (nc) mc_sample("linux %s %s without class %s (one of %zu classes)", s->name, ftag(), C[nc / 2], nc);
     for (size_t i = 0; i < nc; i++) free(C[i]);
     free(C);
   }
-  if (nq) mc_sample("linux %s %s without %s (one of %zu removable paths out of %zu consulted)", s->name, FCFG ? "keepall" : "default", Q[nq / 2], nq, np);
+  if (nq) mc_sample("linux %s %s without %s (one of %zu removable paths out of %zu consulted)", s->name, ftag(), Q[nq / 2], nq, np);
   for (size_t i = 0; i < nq; i++) free(Q[i]);
   free(Q);
 }
@@ -311,7 +314,7 @@ int main(int argc, char **argv)
     build_cfgs(MC.thorough);
     mc_note("%d snapshots x applicable component selections x %d configurations", NS, NCFG);
     uint64_t idx = 0;
-    for (int i = 0; i < NS; i++) for (int comp = 0; comp < 3; comp++) {
+    for (int i = 0; i < NS; i++) for (int comp = 0; comp < NCOMPS; comp++) {
       if (!comp_applies(&S[i], comp)) continue;
       for (int ci = 0; ci < NCFG; ci++, idx++) { if (!mc_mine(idx) || mc_deadline()) continue; base_one(&S[i], comp, ci); }
     }
@@ -321,13 +324,16 @@ int main(int argc, char **argv)
     uint64_t idx = 0; size_t limit = MC.thorough ? 1000000 : (size_t)atoi(mc_opt("maxpaths") ? mc_opt("maxpaths") : "2500");
     class_pair_limit = atoi(mc_opt("classpairs") ? mc_opt("classpairs") : (MC.thorough ? "400" : "60"));
     mc_note("fault enumeration: bound 1 on every Linux snapshot%s", MC.thorough ? ", bound 2 under sys/devices/system when <= 200 such paths" : " whose consulted path set has at most the quick limit");
-    for (FCFG = 0; FCFG < 2; FCFG++) for (int i = 0; i < NS; i++) {
+    static const int FC[] = { 0, 2, 3 };
+    for (FCFG = 0; FCFG < 2; FCFG++) for (int i = 0; i < NS; i++) for (int fc = 0; fc < 3; fc++) {
       if (strcmp(S[i].kind, "linux") && strcmp(S[i].kind, "x86+linux")) continue;
+      if (fc && strcmp(S[i].kind, "x86+linux")) continue;   /* both backends, in both orders: snapshots that have a CPUID dump too */
+      FCOMP = FC[fc];
       if (mc_deadline()) break;
       /* size probe (cheap): count consulted paths */
       if (!MC.thorough) {
         hwloc_topology_t t = NULL; struct ucfg c; fault_cfg(&c); envfs_reset_record(); envfs_mode(1);
-        int rc = load_snapshot(&t, &S[i], 0, &c); envfs_mode(0); if (rc == 0) hwloc_topology_destroy(t);
+        int rc = load_snapshot(&t, &S[i], FCOMP, &c); envfs_mode(0); if (rc == 0) hwloc_topology_destroy(t);
         char **P; size_t np0 = envfs_recorded(&P); if (np0 > limit) { if (MC.part == 0) { mc_count("snapshots_single_paths_deferred_to_thorough", 1); mc_outcome("deferred", "%s consulted=%zu (classes are enumerated)", S[i].name, np0); } faults_of(&S[i], &idx, 0, 0); continue; }
       }
       faults_of(&S[i], &idx, MC.thorough, 1);
